@@ -99,6 +99,7 @@ META = {
                                 "clients (raw byte-stream tasks)", "clock (synctest)", "goroutine choice (baton scheduler)"]},
     },
     "C16": {
+        "race_budget": {"quick": 8, "thorough": 90},
         "level": "fault_enumeration",
         "budget": {"quick": 40, "thorough": 600},
         "rule": ("each run = real server + assembler, 1-3 lock-step connections with whole-frame arrival; the subject connection carries 1-5 requests drawn from "
